@@ -11,7 +11,7 @@ from hypothesis import strategies as st
 
 from vlib.rig import Rig
 
-EJECT_TIMEOUT = {"bd_trough": 3.0, "bd_outhole": 2.0, "bd_launcher": 6.0, "bd_lock": 4.0}
+EJECT_TIMEOUT = {"bd_trough": 3.0, "bd_outhole": 2.0, "bd_launcher": 6.0, "bd_lock": 4.0, "bd_vuk": 5.0}
 BALL_MISSING = 20.0
 QUIET = 75.0          # longer than every configured timeout (ball missing 20 s, eject 6 s, idle missing 5 s)
 
@@ -49,12 +49,14 @@ def case_strategy(draw):
         "max_attempts": draw(st.sampled_from([0, 0, 2, 3])),
         "lock_first": draw(st.booleans()),
     }
-    if topo["launcher"]["cap"] == 1:
+    # optional VUK between the launcher and the playfield (trough -> launcher -> VUK -> playfield)
+    topo["vuk"] = draw(st.sampled_from([None, None, None, {"cap": 1}, {"cap": 2}]))
+    if topo["launcher"]["cap"] == 1 and not topo["vuk"]:
         topo["launcher"]["mechanical"] = draw(st.sampled_from([False, False, True]))
     if draw(st.booleans()):
         topo["lock"] = {"kind": draw(st.sampled_from(["switch", "switch", "entrance"])),
                         "cap": draw(st.integers(1, 3))}
-    devs = ["bd_trough", "bd_launcher"] + (["bd_lock"] if topo["lock"] else [])
+    devs = ["bd_trough", "bd_launcher"] + (["bd_lock"] if topo["lock"] else []) + (["bd_vuk"] if topo["vuk"] else [])
     ops = [
         st.tuples(st.just("add_ball"), st.integers(1, 3), st.booleans()).map(list),
         st.tuples(st.just("add_ball"), st.integers(1, 2), st.just(False)).map(list),
@@ -79,7 +81,8 @@ def case_strategy(draw):
     head = draw(st.lists(st.tuples(first, st.sampled_from(GAPS)).map(list), max_size=2))
     steps = head + draw(st.lists(st.tuples(op, st.sampled_from(GAPS)).map(list), min_size=2, max_size=30))
     outcomes = {}
-    for d, to_pf in (("bd_trough", False), ("bd_outhole", False), ("bd_launcher", True), ("bd_lock", True)):
+    for d, to_pf in (("bd_trough", False), ("bd_outhole", False), ("bd_launcher", not topo["vuk"]), ("bd_lock", True),
+                     ("bd_vuk", True)):
         outcomes[d] = draw(st.lists(outcome_strategy(to_pf, EJECT_TIMEOUT[d]), max_size=8))
     return {"topo": topo, "steps": steps, "outcomes": outcomes,
             "claims": draw(st.lists(st.sampled_from([True, True, False]), max_size=6))}
@@ -93,7 +96,10 @@ def game_strategy(draw):
     calm = draw(st.booleans())
     if calm:
         topo["launcher"]["cap"] = 1
-    topo["launcher"]["mechanical"] = topo["launcher"]["cap"] == 1 and draw(st.sampled_from([False, False, True]))
+        if topo.get("vuk"):
+            topo["vuk"] = {"cap": 1}
+    topo["launcher"]["mechanical"] = topo["launcher"]["cap"] == 1 and not topo.get("vuk") and \
+        draw(st.sampled_from([False, False, True]))
     game = {"balls_per_game": draw(st.integers(1, 3)),
             "ball_save": draw(st.one_of(st.none(), *[st.fixed_dictionaries({
                 "active_time": st.sampled_from(["2s", "8s", "30s", "120s"]), "auto_launch": st.booleans(),
@@ -136,6 +142,8 @@ def _calm(c):
     # the trough must never feed the launcher while the launcher ejects (MPF only does that with a spare slot)
     c = dict(c, calm=True)
     c["topo"] = dict(c["topo"], launcher=dict(c["topo"]["launcher"], cap=1))
+    if c["topo"].get("vuk"):
+        c["topo"]["vuk"] = {"cap": 1}
     return c
 
 
@@ -200,7 +208,13 @@ def build_config(topo):
         launcher["mechanical_eject"] = True
     else:
         launcher["eject_coil"] = "c_launch"
+    if topo.get("vuk"):
+        launcher["eject_targets"] = "bd_vuk"
     bd["bd_launcher"] = launcher
+    if topo.get("vuk"):
+        bd["bd_vuk"] = {"ball_switches": ", ".join("s_v%d" % i for i in range(1, topo["vuk"]["cap"] + 1)),
+                        "eject_coil": "c_vuk", "eject_timeouts": "5s", "confirm_eject_type": "target",
+                        "max_eject_attempts": topo["max_attempts"]}
     if lock and not topo["lock_first"]:
         bd["bd_lock"] = lock
     return {"ball_devices": bd, "virtual_platform_start_active_switches": start_active}
@@ -253,7 +267,11 @@ class World:
         la = topo["launcher"]
         self.devs["bd_launcher"] = Dev("bd_launcher", "switch", la["cap"],
                                        ["s_l%d" % i for i in range(1, la["cap"] + 1)],
-                                       None if la["mechanical"] else "c_launch", "playfield", 0)
+                                       None if la["mechanical"] else "c_launch",
+                                       "bd_vuk" if topo.get("vuk") else "playfield", 0)
+        if topo.get("vuk"):
+            self.devs["bd_vuk"] = Dev("bd_vuk", "switch", topo["vuk"]["cap"],
+                                      ["s_v%d" % i for i in range(1, topo["vuk"]["cap"] + 1)], "c_vuk", "playfield", 0)
         if topo["lock"]:
             k = topo["lock"]
             if k["kind"] == "switch":
@@ -683,7 +701,8 @@ def run(case, focus=None):
             if game and m.game and not broken:
                 bip = m.game.balls_in_play
                 in_play = w.loose + w.devs["bd_launcher"].content + \
-                    (w.devs["bd_lock"].content if "bd_lock" in w.devs else 0)
+                    (w.devs["bd_lock"].content if "bd_lock" in w.devs else 0) + \
+                    (w.devs["bd_vuk"].content if "bd_vuk" in w.devs else 0)
                 home = sum(w.devs[n].content for n in ("bd_trough", "bd_outhole") if n in w.devs)
                 if bip > in_play and home > 0:
                     add(out["c05"], "rest:ball-in-play-not-delivered",
